@@ -82,3 +82,142 @@ Proof.
 Qed.
 Lemma is_call_A q q' : aeq [] (pr_body0 q) (pr_body0 q') -> is_call (pr_body0 q') = is_call (pr_body0 q).
 Proof. intros Hb. destruct (pr_body0 q), (pr_body0 q'); cbn [aeq] in Hb; try contradiction; reflexivity. Qed.
+
+(* ---------------------------------------------------------------- function tables, calls *)
+Definition frelA (fd fd' : fundef) : Prop :=
+  fn_name fd' = fn_name fd /\ fn_type fd' = fn_type fd /\ fn_explicit fd' = fn_explicit fd /\
+  match fn_explicit fd with Some ep => ident ep <> "" | None => True end /\
+  Forall2 bnd (fn_params fd) (fn_params fd') /\
+  aeq (params_env (fn_params fd) (fn_params fd')) (nf' (fn_body fd)) (nf' (fn_body fd')).
+
+Lemma get_function_relA : forall G G', Forall2 frelA G G' -> forall fn n,
+  match get_function G fn n with
+  | Some fd => exists fd', get_function G' fn n = Some fd' /\ frelA fd fd'
+  | None => get_function G' fn n = None
+  end.
+Proof.
+  induction 1 as [|fd fd' l l' Hf _ IH]; intros fn n; cbn [get_function]; [reflexivity|].
+  pose proof Hf as (E1 & _ & _ & _ & HB & _). rewrite E1, <- (Forall2_length _ _ _ HB).
+  destruct (String.eqb (fn_name fd) fn && _); [|apply IH]. eauto.
+Qed.
+
+Lemma sub_all_A : forall ps ps', Forall2 bnd ps ps' -> forall as_ e b b', Forall nonvar as_ -> length as_ = length ps ->
+  aeq (params_env ps ps' ++ e) b b' -> aeq e (sub_all ps as_ b) (sub_all ps' as_ b').
+Proof.
+  induction 1 as [|p p' ps ps' B _ IH]; intros [|a as_] e b b' Ha Hl H; cbn [length] in Hl; try discriminate; cbn [sub_all]; [exact H|].
+  inversion Ha; subst. apply IH; auto. apply aeq_subst_top0; auto.
+Qed.
+
+Lemma aeq_subst_free0 e X c f g : chan X = None -> ident X <> "" -> nonvar c ->
+  ~ In (ident X) (map fst e) -> ~ In (ident X) (map snd e) -> aeq e f g -> aeq e (subst X c f) (subst X c g).
+Proof.
+  intros HX NX [Hc Ic] N1 N2 H.
+  pose proof (proj1 (aeq_mono e (e ++ [(ident X, ident X)]) (ext_snoc e (ident X))) f g [] H) as H'. cbn [app] in H'.
+  pose proof (proj1 (aeq_subst_gen X X c [] HX HX NX NX Hc Ic) f g e true true) as G.
+  cbn [msub] in G. rewrite app_nil_r in G. apply G; [split; assumption | exact H'].
+Qed.
+
+Lemma params_env_fst : forall ps ps', length ps' = length ps -> map fst (params_env ps ps') = map ident ps.
+Proof. unfold params_env. induction ps as [|p ps IH]; intros [|p' ps'] H; cbn in *; try discriminate; [reflexivity|]. f_equal. apply IH. lia. Qed.
+Lemma params_env_snd : forall ps ps', length ps' = length ps -> map snd (params_env ps ps') = map ident ps'.
+Proof. unfold params_env. induction ps as [|p ps IH]; intros [|p' ps'] H; cbn in *; try discriminate; [reflexivity|]. f_equal. apply IH. lia. Qed.
+
+Section RelA.
+Variable D : tenv.
+Variables F F' : list fundef.
+Variable teq : sty -> sty -> Prop.
+Hypothesis HF : funs_typed D F teq.
+Hypothesis HF' : funs_typed D F' teq.
+Hypothesis FR : Forall2 frelA F F'.
+Local Notation typedF := (typed D F teq).
+Local Notation typedF' := (typed D F' teq).
+
+(* what fun_ok says about the parameters *)
+Lemma fun_ok_params (G : list fundef) fd : fun_ok D G teq fd ->
+  Forall (fun p => initialized p = false /\ ident p <> "") (fn_params fd) /\
+  Forall (fun p => nos (ident p) (fn_body fd)) (fn_params fd) /\
+  match fn_explicit fd with Some ep => initialized ep = false /\ chan ep = None /\ ~ In (ident ep) (map ident (fn_params fd)) | None => True end.
+Proof.
+  intros (tf & Etf & Hbind & Hnd & Hty' & Hbody).
+  assert (Hps : Forall (fun p => initialized p = false /\ ident p <> "") (fn_params fd)).
+  { rewrite List.Forall_forall in *. intros p Hp. apply binder_facts, Hbind, Hp. }
+  split; [exact Hps|]. destruct (fn_explicit fd) as [ep|].
+  - destruct Hbody as (Hepc & Hepn & Hb). split; [|split; [unfold initialized; now rewrite Hepc|split; [exact Hepc|]]].
+    + rewrite List.Forall_forall in *. intros p Hp. eapply typed_nos; [exact Hb|].
+      destruct (Hps p Hp) as [_ Hne]. intro Hin. apply elem_of_union in Hin. destruct Hin as [Hin|Hin]; apply elem_of_singleton in Hin.
+      * congruence.
+      * apply Hepn. rewrite <- Hin. apply elem_of_list_In, in_map, Hp.
+    + intros Hin. apply Hepn. apply elem_of_list_In. exact Hin.
+  - split; [|exact I]. rewrite List.Forall_forall in *. intros p Hp. eapply typed_nos; [exact Hbody|].
+    destruct (Hps p Hp) as [_ Hne]. intro Hin. apply elem_of_singleton in Hin. congruence.
+Qed.
+
+(* the instantiated body depends on the erasure of the body and of the arguments only *)
+Lemma erase_sub_all ps as_ b :
+  Forall (fun p => initialized p = false /\ ident p <> "") ps -> Forall (fun a => uself a = false) as_ ->
+  Forall (fun p => nos (ident p) b) ps ->
+  nf' (sub_all ps as_ b) = nf' (sub_all ps (map nn' as_) (nf' b)).
+Proof.
+  intros Hps Ha Hn. symmetry. apply sub_all_T; auto; [|apply nf'_idem].
+  rewrite List.Forall_forall in *. intros p Hp. split; [|auto]. apply nos_nf'. apply (Hps p Hp).
+Qed.
+
+Lemma call_relA Δ Δ' rs s rs' s' fn args pt args' pt' :
+  typedF Δ ∅ None rs s (FCall fn args pt) -> typedF' Δ' ∅ None rs' s' (FCall fn args' pt') ->
+  map nn' args' = map nn' args ->
+  match call_body F fn args with
+  | Some b => exists b', call_body F' fn args' = Some b' /\ aeq [] (nf' b) (nf' b')
+  | None => call_body F' fn args' = None
+  end.
+Proof.
+  intros Hty Hty' Ea.
+  assert (Hlen : length args' = length args) by (apply (f_equal (@length _)) in Ea; now rewrite !map_length in Ea).
+  pose proof (call_args_good D F teq _ _ _ _ _ _ Hty) as Hg.
+  inversion Hty as [| | | | | | | | | | | | | ? ? ? ? ? ? ? fd tf0 Eg Etf0 Hteq0 Hargs | | | | | |]; subst.
+  inversion Hty' as [| | | | | | | | | | | | | ? ? ? ? ? ? ? fd2 tf2 Eg2 Etf2 Hteq2 Hargs' | | | | | |]; subst.
+  pose proof (get_function_relA F F' FR fn (length args)) as G. rewrite Eg in G. destruct G as (fd' & Eg' & Hfr).
+  rewrite Hlen, Eg' in Eg2. inversion Eg2; subst fd2. clear Eg2.
+  assert (Hok : fun_ok D F teq fd) by (pose proof HF as H; unfold funs_typed in H; rewrite List.Forall_forall in H; apply H; eapply get_function_in; eauto).
+  assert (Hok' : fun_ok D F' teq fd') by (pose proof HF' as H; unfold funs_typed in H; rewrite List.Forall_forall in H; apply H; eapply get_function_in; eauto).
+  destruct (fun_ok_params F fd Hok) as (Hps & Hnos & Hep). destruct (fun_ok_params F' fd' Hok') as (Hps' & Hnos' & Hep').
+  destruct Hfr as (En & Et & Ee & Hepn & HB & Hbody).
+  pose proof (Forall2_length _ _ _ HB) as HLp.
+  assert (Hnv : forall l : list name, Forall good l -> Forall nonvar (map nn' l)).
+  { intros l Hl. apply List.Forall_forall. intros a Ha. apply in_map_iff in Ha. destruct Ha as (a1 & <- & Ha1). apply good_nonvar. rewrite List.Forall_forall in Hl. auto. }
+  unfold call_body. rewrite Eg, Hlen, Eg'. fold sub_all. rewrite Ee in *.
+  destruct Hargs as [[Hl Ha]|(a0 & rest & -> & Hl & Hp0 & Ha)].
+  - (* as many arguments as parameters *)
+    assert (Hl' : length args = length (fn_params fd')) by lia.
+    destruct Hargs' as [[_ Ha']|(a0' & rest' & -> & Hr' & _)]; [|cbn [length] in Hlen; lia].
+    assert (R : aeq [] (nf' (sub_all (fn_params fd) args (fn_body fd))) (nf' (sub_all (fn_params fd') args' (fn_body fd')))).
+    { rewrite (erase_sub_all _ args _ Hps (args_nonself teq _ _ _ _ _ Ha) Hnos), (erase_sub_all _ args' _ Hps' (args_nonself teq _ _ _ _ _ Ha') Hnos'), Ea.
+      apply aeq_nf'. apply sub_all_A; auto; [rewrite map_length; exact Hl | now rewrite app_nil_r]. }
+    rewrite Hl, <- HLp, !Nat.eqb_refl. destruct (fn_explicit fd); eauto.
+  - (* one more: the provider is passed explicitly *)
+    cbn [length] in *.
+    destruct Hargs' as [[Hl' _]|(a0' & rest' & -> & Hr' & Hp0' & Ha')]; [lia|]. cbn [length map] in *.
+    assert (Erest : map nn' rest' = map nn' rest) by congruence.
+    inversion Hg as [|? ? _ Hgr]; subst.
+    rewrite Hl, <- HLp. destruct (S (length (fn_params fd)) =? length (fn_params fd))%nat eqn:N1; [apply Nat.eqb_eq in N1; lia|].
+    rewrite !Nat.eqb_refl.
+    destruct (fn_explicit fd) as [ep|] eqn:Eep.
+    + rewrite (prov_none _ _ Hp0), (prov_none _ _ Hp0'). destruct Hep as (Hepi & Hepc & Hepn'). destruct Hep' as (_ & _ & Hepn2).
+      eexists. split; [reflexivity|].
+      assert (Hnsn : forall x, x <> "" -> nsn x (new_self "")) by (intros x Hx _ E; cbn in E; congruence).
+      assert (Hn1 : Forall (fun p => nos (ident p) (subst ep (new_self "") (fn_body fd))) (fn_params fd)).
+      { rewrite List.Forall_forall in *. intros p Hp. apply nos_subst_var; auto. apply Hnsn, (Hps p Hp). }
+      assert (Hn1' : Forall (fun p => nos (ident p) (subst ep (new_self "") (fn_body fd'))) (fn_params fd')).
+      { rewrite List.Forall_forall in *. intros p Hp. apply nos_subst_var; auto. apply Hnsn, (Hps' p Hp). }
+      rewrite (erase_sub_all _ rest _ Hps (args_nonself teq _ _ _ _ _ Ha) Hn1), (erase_sub_all _ rest' _ Hps' (args_nonself teq _ _ _ _ _ Ha') Hn1'), Erest.
+      rewrite <- (proj1 (subst_C ep Hepi) (fn_body fd)), <- (proj1 (subst_C ep Hepi) (fn_body fd')).
+      assert (Hs : aeq (params_env (fn_params fd) (fn_params fd')) (subst ep (new_self "") (nf' (fn_body fd))) (subst ep (new_self "") (nf' (fn_body fd')))).
+      { apply aeq_subst_free0; auto using nonvar_new_self.
+        - rewrite params_env_fst by auto. exact Hepn'.
+        - rewrite params_env_snd by auto. exact Hepn2. }
+      destruct (proj1 aeq_erased _ _ _ Hs) as [X1 X2]. rewrite X1, X2.
+      apply aeq_nf'. apply sub_all_A; auto; [rewrite map_length; exact Hl | now rewrite app_nil_r].
+    + cbn [tl]. eexists. split; [reflexivity|].
+      rewrite (erase_sub_all _ rest _ Hps (args_nonself teq _ _ _ _ _ Ha) Hnos), (erase_sub_all _ rest' _ Hps' (args_nonself teq _ _ _ _ _ Ha') Hnos'), Erest.
+      apply aeq_nf'. apply sub_all_A; auto; [rewrite map_length; exact Hl | now rewrite app_nil_r].
+Qed.
+End RelA.
